@@ -203,9 +203,9 @@ func main() {
 		}
 	}
 	// 4: random nets
-	nRand := 40
+	nRand := 400
 	if tier == "thorough" {
-		nRand = 600
+		nRand = 3000
 	}
 	rng := hx.RNG(run.Seed, "c04")
 	for i := 0; i < nRand; i++ {
